@@ -1037,5 +1037,32 @@ def r9(cx):
     cx.floor(len(steps), 3, 'option kinds of getopts')
 
 
+# ---------------------------------------------------------------------------------------
+# added after the independent report C20w3 #1 (fix 8619c4a: kill accepted +9 / -9 as signal numbers)
+@RS.rule('C20.R10', 'K-GUARD', 'kill: a signal number is an unsigned decimal - the text is handed to str::parse (which accepts a leading `+` or '
+         '`-`) only behind a test that it starts with a digit, so `-s +9`, `-n+9`, `-+9` are not spellings of signal 9 and `-s -9` is no signal')
+def r10(cx):
+    import pp
+    F = cx.F
+    body = F.main_body(KILL_PARSE_SIGNAL)
+    cx.fn(body.fn)
+    du = Q.DefUse(body)
+    parses = [(blk, t) for blk, t in Q.find_calls(body, ['core::str::<impl str>::parse'])]
+    cx.site('kill::syntax::parse_signal: str::parse x%d' % len(parses))
+    if not parses:
+        return                                   # a hand-written digit scanner accepts no sign
+    DIGIT = re.compile(r'(is_ascii_digit|starts_with|strip_prefix|bytes|chars|all)(::<.*>)?$')
+    for blk, t in parses:
+        ok = False
+        for org, lab, e in Q.implied_conditions(F, body, du, blk):
+            if org['k'] == 'call' and DIGIT.search(pp.callee(org['t'])):
+                ok = True
+        cx.site('parse_signal: str::parse at %s behind a first-character / all-digits test: %s' % (body.loc(t), ok))
+        if not ok:
+            cx.violation(KILL_PARSE_SIGNAL, 'signed-signal-number', 'the signal specification is handed to str::parse::<i32> without a test that '
+                         'it is made of digits: `kill -s +9 pid`, `kill -n+9 pid` and even `kill -+9 pid` send signal 9, and `kill -s -9` '
+                         'passes a negative signal number on - none of them is a documented spelling of `-9` / `-s 9` / `-n 9`', loc=body.loc(t))
+
+
 # --- explanation addendum (generated catalogue in DESIGN.md reads RS.explanation)
-RS.explanation += " Added later: ulimit's long names agree with the resource selected by the short letter (R1b); the cut of `--name=value` is measured in the text the user typed (R3b). the user manual's -x (--long) pairs are pairs of the option tables (R6). getopts keeps scanning a group after any letter without argument (R9)."
+RS.explanation += " Added later: ulimit's long names agree with the resource selected by the short letter (R1b); the cut of `--name=value` is measured in the text the user typed (R3b). the user manual's -x (--long) pairs are pairs of the option tables (R6). getopts keeps scanning a group after any letter without argument (R9). kill reads only unsigned decimals as signal numbers (R10)."
